@@ -8,6 +8,5 @@ func main() {
 		"c18":    c18,
 		"c07":    c07,
 		"c08":    c08,
-		"probe":  probe,
 	})
 }
